@@ -154,51 +154,16 @@ func checkC13(rd *RunData) []Violation {
 			}
 		}
 	}
-	// (1b) no redundant load: a Get that was invoked before an earlier successful load of
-	// its key had finished (it missed before or while that load ran) must share that load's
-	// result or find the stored value - it must not run the loader again, unless the key
-	// was written, deleted, evicted or could have expired in between
-	for i, a := range order {
-		if a.l.Outcome != "ok" || a.l.End == 0 || a.l.TTL != 0 || rd.Sc.Cache.Doorkeeper {
-			continue
-		}
-		c := a.l.Cost
-		if c == 0 {
-			c = costOf(a.l.Val)
-		}
-		if c > rd.Sc.Cache.MaxSize {
-			continue
-		}
-		for _, b := range order[i+1:] {
-			if b.l.Key != a.l.Key || !b.found || b.l.Start < a.l.End {
-				continue
-			}
-			if b.inv >= a.l.End {
-				break // invoked after the first load finished: a fresh miss is its own business (C01/C06)
-			}
-			disturbed := false
-			for _, r := range recs {
-				if (r.Op.Kind == "set" || r.Op.Kind == "del") && r.Op.Key == a.l.Key && (r.Open || r.Ret > a.l.Start) && r.Inv < b.l.Start {
-					disturbed = true
-				}
-			}
-			for _, l := range rd.Listener {
-				if l.Key == a.l.Key && l.Seq < b.l.Start+4 {
-					disturbed = true // evicted / expired / removed before the second load
-				}
-			}
-			for _, o := range order {
-				if o.l.Key == a.l.Key && o != a && o != b && o.l.Start < b.l.Start && (o.l.End == 0 || o.l.End > a.l.Start) {
-					disturbed = true
-				}
-			}
-			probe("c13.late-arrival-checked")
-			if !disturbed {
-				vs = append(vs, Violation{"C13/redundant-load/late-arrival," + fam, fmt.Sprintf("loader invocation %s for key %d (seq [%d,%d]) was started by a Get invoked at seq %d, i.e. before the successful load %s of the same key (seq [%d,%d]) had finished; nothing wrote, deleted, evicted or expired the key in between, so that Get had to share the first load's result instead of loading again", b.l.Token, b.l.Key, b.l.Start, b.l.End, b.inv, a.l.Token, a.l.Start, a.l.End)})
-			}
-			break
+	// (1b) no redundant load: the loader is only ever invoked for a key that is absent (or expired).
+	// White-box witness taken by the loader stub at its first instruction: if the key is resident
+	// and unexpired at that moment, some caller that had missed earlier ran the loader again
+	// instead of finding / sharing the stored value - and its result overwrites the resident one.
+	for _, f := range order {
+		if f.l.Resident {
+			vs = append(vs, Violation{"C13/redundant-load/key-resident-at-loader-start," + fam, fmt.Sprintf("loader invocation %s for key %d (seq [%d,%d]) was started while the key was resident and unexpired (value %d): a caller that had missed earlier loaded again instead of sharing the stored value", f.l.Token, f.l.Key, f.l.Start, f.l.End, f.l.ResVal)})
 		}
 	}
+	probeN("c13.loader-invocations", len(order))
 	overlaps := func(r Rec, f *flight) bool {
 		if !f.found {
 			return true // cannot tell: be permissive
